@@ -571,6 +571,13 @@ pub(crate) fn needs_explicit_float_tag(text: &str) -> bool {
     !matches!(resolve_plain(text), ResolvedScalar::Float(_))
 }
 
+/// Verification hook: direct access to [`needs_explicit_float_tag`].
+#[cfg(feature = "verif-hooks")]
+#[doc(hidden)]
+pub fn verif_needs_explicit_float_tag(text: &str) -> bool {
+    needs_explicit_float_tag(text)
+}
+
 /// Force-resolves a scalar's value under an explicit YAML tag.
 ///
 /// Handles the 5 core-schema tags (`!!str`, `!!null`, `!!bool`, `!!int`,
